@@ -34,6 +34,18 @@ PROPS["C19"] = dict(
     assumptions=["updates for one shard are Raft-consistent (same term+leader present => same leader; same config-change index => same membership) for the order-independence theorems"],
 )
 
+PROPS["C13"] = dict(
+    title="The metadata store is a deterministic compare-and-set register map",
+    design_ref="DESIGN.md section 7 (C13)",
+    run_files=["Run/C13Run.v"],
+    engines=[dict(cmd=["c13"], corr="Model.MetaKV.{mupdate,mget,mgetall,mgetallvalues,mlist,mlistdir,msnapshot} <-> kv.LFSM.Update/Lookup/PrepareSnapshot/SaveSnapshot/RecoverFromSnapshot, kv.MapStore")],
+    level_text="Theorems for all entry sequences: CAS outcome (success iff absent or version equal; mismatch reports current pair and leaves the store unchanged), fresh increasing versions over logs with increasing indices, refinement of all lookups to the plain map built by successful updates, exact and sorted glob listings, batching independence, snapshot round trip. Model compared with the real kv.LFSM (incl. its JSON snapshot) on random scenarios; Go side checks the property oracle after every step and a second replica.",
+    level_note="Trusts: Coq kernel; genconst (result codes); correspondence run; path.Match modelled for patterns of literals and '*' only and List/ListDir for clean absolute paths only (all that callers use); JSON snapshot modelled as identity on content (exercised by the harness).",
+    technique="Coq proof (refinement of a sorted association list to an abstract CAS map, induction over entry lists) + differential correspondence check against kv.LFSM",
+    trusted=["Model/MetaKV.v hand-written model of storage/kv/raft.go + map.go; strings modelled as UTF-8 byte lists"],
+    assumptions=["log indices handed to Update are strictly increasing (Raft)"],
+)
+
 # Properties not (yet) claimed, each with a reason; kept current as checks are added.
 _PENDING = "check not built yet in this development; will be claimed once its model, theorems and correspondence harness exist"
 NOT_APPLICABLE = [dict(property_id="C%02d" % i, reason=_PENDING) for i in range(1, 20) if "C%02d" % i not in PROPS]
